@@ -163,6 +163,17 @@ func encTy(t px.Type, depth int) Ty {
 		return Iter(encTy(t.ElementType(), depth))
 	case *types.IteratorType:
 		return Itr(encTy(t.ElementType(), depth))
+	case *types.CallableType:
+		var ps [3]*Ty
+		for i, key := range []string{"param_types", "return_type", "block_type"} {
+			if v, _ := t.Get(key); v != nil {
+				if pt, ok := v.(px.Type); ok {
+					x := encTy(pt, depth)
+					ps[i] = &x
+				}
+			}
+		}
+		return Call(ps[0], ps[1], ps[2])
 	case *types.RuntimeType:
 		// Parameters(): none for the default; runtime; runtime, name; runtime, name, Regexp type (Get("name_or_pattern") hides the name
 		// when there is a pattern)
